@@ -10,7 +10,7 @@ def one(seed, props):
     d = tempfile.mkdtemp(prefix='slu_seed_')
     try:
         for sub in ('SRC', 'CBLAS', 'FORTRAN', 'EXAMPLE'):
-            shutil.copytree(os.path.join('/repo', sub), os.path.join(d, sub))
+            shutil.copytree(os.path.join(os.environ.get('SLU_SEED_BASE', '/repo'), sub), os.path.join(d, sub))
         r = subprocess.run(['patch', '-p1', '-s', '-d', d, '-i', os.path.join(VERIF, 'seeded', seed, 'patch.diff')], stdout=subprocess.PIPE, stderr=subprocess.STDOUT)
         if r.returncode != 0:
             return seed, {'_patch': r.stdout.decode()[-300:]}
@@ -49,7 +49,7 @@ def main():
         else:
             i += 1
     res = {}
-    with ThreadPoolExecutor(max_workers=8) as ex:
+    with ThreadPoolExecutor(max_workers=int(os.environ.get('SLU_SEED_JOBS', '8'))) as ex:
         for seed, out in ex.map(lambda s: one(s, [s.split('-')[0]] if own_only else props), seeds):
             res[seed] = out
             hits = [p for p, v in out.items() if isinstance(v, tuple) and v[0] == 1]
